@@ -8,6 +8,31 @@ var commonAssumptions = []string{
 }
 
 func init() {
+	register("C20", &propDef{
+		Run: runC20,
+		Info: propInfo{
+			Explanation: "XorBytes: (R1) the build constraints (//go:build expressions parsed with go/build/constraint plus GOARCH file-name suffixes) are evaluated over the complete truth table of the tags that occur x {arm, other}: exactly one file defining XorBytes is selected in every row; (R2) the definition active in each analysed configuration is a single-block pure delegation 'return subtle.XORBytes(dst, {a,b})' with no other instruction - crypto/subtle's contract then gives the property - or else satisfies the legacy rules; (R3) legacy files that no available toolchain selects are parsed and type-checked stand-alone and checked structurally: n is the minimum of the two lengths (guarded phi), 0 is returned only on n == 0, every dispatch arm receives (dst, a, b, n) with pointers &x[0], n is returned, every xor loop uses one index for destination and operands, steps by 1, and the loops cover exactly [0,n) (byte loop) or [0,n/w) words + [n-n%w,n) bytes. The assembly bodies and the standard library are trusted.",
+			RuleText:    "one obligation per rule / file / configuration; sites are files, truth-table rows, calls and loops; non-trivial = matched at least one site",
+			Assumptions: append([]string{"crypto/subtle.XORBytes implements bytewise XOR over min(len(x),len(y)) with exact or no overlap (standard library contract)", "xor_arm.s implements the documented routines"}, commonAssumptions...),
+		},
+		Thorough: []LoadCfg{{GOOS: "linux", GOARCH: "arm"}, {GOOS: "linux", GOARCH: "386"}, {GOOS: "darwin", GOARCH: "arm64"}, {GOOS: "js", GOARCH: "wasm"}},
+	})
+	register("C18", &propDef{
+		Run: runC18,
+		Info: propInfo{
+			Explanation: "dpipe: Write queues a freshly allocated copy on the write channel (taint); Pipe cross-wires two distinct channels and gives each end its own closed channel, closed once (sync.Once) by that end only; Read takes one message per return and reports len(message) only on the edge len(message) <= len(buffer), else len(buffer). Bridge: Push copies (taint); for Push, Len, Reorder, Drop, DropNextNWrites, ReorderNextNWrites and Filter the code of direction 0 and of direction 1 is identical up to the renaming 0<->1 (mirror comparison of canonical serialisations of the two branches: first divergence is reported); a completed reorder burst is appended to the existing queue and the stack is then reset to nil on every path (no aliasing, no re-delivery); Tick offers the head (index 0) of each queue to the peer's unbuffered read channel without blocking and removes it exactly on the success edge. Not decided: that reorder/drop scripts realise exactly the intended permutation.",
+			RuleText:    "one obligation per rule / per mirrored method; sites are sends, stores, returns, branch regions; non-trivial = matched at least one site",
+			Assumptions: commonAssumptions,
+		},
+	})
+	register("C17", &propDef{
+		Run: runC17,
+		Info: propInfo{
+			Explanation: "Sibling rule over the six context-aware I/O functions (found by signature: context + []byte + an I/O invoke on the wrapped connection field; floor 6), direction d in {Read, Write}: the watcher goroutine forces a past d-deadline only in the ctx.Done() case of a select that also waits for completion, then waits for the operation (receive from done), then restores the zero d-deadline on every path where forcing succeeded, touches no other direction's deadline, and signals wg.Done only afterwards; the outer function itself never manipulates deadlines; close(done) then wg.Wait() lie on every path from the I/O call to the return while the direction's mutex is still held; wg.Add precedes go which precedes the I/O; the returned byte count is always the wrapped call's n and the context's error is substituted only on the edge ctx.Err() != nil and n == 0; per-direction mutexes differ; the closed test dominates the I/O; lock balance. Promptness depends on the wrapped connection honouring deadlines and is not decided.",
+			RuleText:    "one obligation per rule per sibling function; sites are calls, selects, returns; non-trivial = matched at least one site",
+			Assumptions: append([]string{"the wrapped net.Conn / net.PacketConn honours Set{Read,Write}Deadline"}, commonAssumptions...),
+		},
+	})
 	register("C04", &propDef{
 		Run: runC04,
 		Info: propInfo{
